@@ -474,3 +474,140 @@ static Reg r_thr("thr", [](std::vector<std::string> const& a) -> std::string {
     for (auto& [c, k]: cnt) kinds += std::string(1, c) + "=" + std::to_string(k) + ",";
     return "jobs=" + std::to_string(n * rounds) + " diff=" + std::to_string(diff) + " kinds=" + kinds + out;
 });
+
+// ------------------------------------------------------------------------------------------------------
+//  isofile <seed> <nsteps> <file0,file1,file2>
+//  Bystander oracle on real files (no model): three live documents; every step mutates ONE of them through the
+//  public API; after every step the complete JSON of every document and of a freshly opened file is hashed.
+//  Output: init|h0,h1,h2,hF#<op>|<acting document>|h0,h1,h2,hF#...
+#include <qpdf/QPDFObjGen.hh>
+namespace {
+
+std::string full_json(QPDF& q) {
+    Pl_Buffer p("json");
+    q.writeJSON(2, &p, qpdf_dl_none, qpdf_sj_inline, "", {});
+    std::string js = p.getString();
+    // the header records which lazy computations the instance has performed so far (not document content)
+    for (char const* key: {"\"calledgetallpages\": ", "\"pushedinheritedpageresources\": "}) {
+        auto i = js.find(key);
+        if (i != std::string::npos) { auto j = js.find('\n', i); js.erase(i, j == std::string::npos ? std::string::npos : j - i); }
+    }
+    return js;
+}
+
+struct FileWorld {
+    std::vector<std::string> data;
+    std::vector<std::unique_ptr<QPDF>> docs;
+    std::string fresh_data;
+
+    void open(size_t i) {
+        docs[i] = std::make_unique<QPDF>();
+        docs[i]->setSuppressWarnings(true);
+        docs[i]->processMemoryFile("doc", data[i].data(), data[i].size());
+    }
+    std::string dump_dir;   // debugging aid: when set, the JSON behind every hash is written there
+    int dump_n = 0;
+    std::string hashes() {
+        std::string out;
+        int k = 0;
+        for (auto& d: docs) {
+            out += safe([&] {
+                std::string js;
+                try { js = full_json(*d); }
+                catch (std::exception const& e) {
+                    if (!dump_dir.empty()) { std::ofstream f(dump_dir + "/s" + std::to_string(dump_n) + "-d" + std::to_string(k) + ".err"); f << e.what(); }
+                    // a copied stream whose source stream (in a destroyed document) was itself fed by a StreamDataProvider
+                    if (std::string(e.what()).find("operation for stream attempted on non-stream object") != std::string::npos)
+                        return std::string("!stream-source-destroyed");
+                    throw;
+                }
+                if (!dump_dir.empty()) { std::ofstream f(dump_dir + "/s" + std::to_string(dump_n) + "-d" + std::to_string(k) + ".json"); f << js; }
+                return hx64(fnv(js)); }) + ",";
+            ++k;
+        }
+        ++dump_n;
+        out += safe([&] {
+            QPDF f; f.setSuppressWarnings(true);
+            f.processMemoryFile("fresh", fresh_data.data(), fresh_data.size());
+            return hx64(fnv(full_json(f) + QPDFObjectHandle::parse("[ null 1 << /K null >> (s) 1.5 ]").unparse()));
+        });
+        return out;
+    }
+    std::string step(Rng& r, size_t a, std::string& opname) {
+        QPDF& q = *docs[a];
+        size_t other = (a + 1 + r.pick(2)) % 3;
+        unsigned k = r.pick(12);
+        switch (k) {
+        case 0: opname = "rootkey"; q.getRoot().replaceKey("/QVK", QPDFObjectHandle::newInteger(static_cast<int>(r.pick(100)))); break;
+        case 1: opname = "newobj"; {
+            auto d = QPDFObjectHandle::parse(&q, "<< /A [ null 1 (str) ] /B null /C << /D 2.5 >> >>");
+            q.getRoot().replaceKey("/QVN", q.makeIndirectObject(d)); } break;
+        case 2: opname = "makeind-item"; {
+            auto v = q.getRoot().getKey("/QV");
+            if (v.isArray() && v.getArrayNItems() > 0) {
+                auto it = v.getArrayItem(0);
+                if (it.isNull() && !it.isIndirect()) opname += ":null";   // a parsed null: the trigger of finding D6
+                q.makeIndirectObject(it);
+            } } break;
+        case 3: opname = "replaceobj"; {
+            int n = static_cast<int>(q.getObjectCount());
+            int id = 1 + static_cast<int>(r.pick(static_cast<unsigned>(n)));
+            auto o = q.getObject(id, 0);
+            if (!o.isStream() && !o.isPageObject() && !o.isPagesObject() && id > 2)
+                q.replaceObject(id, 0, QPDFObjectHandle::parse(&q, "[ null /R 7 ]")); } break;
+        case 4: opname = "rotate"; {
+            auto pages = QPDFPageDocumentHelper(q).getAllPages();
+            if (!pages.empty()) pages.at(r.pick(static_cast<unsigned>(pages.size()))).rotatePage(90, true); } break;
+        case 5: opname = "removepage"; {
+            QPDFPageDocumentHelper dh(q); auto pages = dh.getAllPages();
+            if (pages.size() > 1) dh.removePage(pages.at(r.pick(static_cast<unsigned>(pages.size())))); } break;
+        case 6: opname = "addpage-from:" + std::to_string(other); {
+            QPDFPageDocumentHelper dh(q), oh(*docs[other]); auto op = oh.getAllPages();
+            if (!op.empty()) dh.addPage(op.at(r.pick(static_cast<unsigned>(op.size()))), r.pick(2) == 0); } break;
+        case 7: opname = "copyforeign-from:" + std::to_string(other); {
+            QPDF& s = *docs[other];
+            int n = static_cast<int>(s.getObjectCount());
+            auto fo = s.getObject(1 + static_cast<int>(r.pick(static_cast<unsigned>(n))), 0);
+            if (fo.isIndirect() && !fo.isPagesObject() && !fo.isNull())
+                q.getRoot().replaceKey("/QVC", q.copyForeignObject(fo)); } break;
+        case 8: opname = "write"; (void)write_mem(q, static_cast<int>(r.pick(6))); break;
+        case 9: opname = "json"; (void)full_json(q); break;
+        case 10: opname = "updatejson"; {
+            std::string js = "{\"qpdf\": [{\"jsonversion\": 2, \"pushedinheritedpageresources\": false, \"calledgetallpages\": false, \"maxobjectid\": 1}, "
+                             "{\"trailer\": {\"value\": {\"/Root\": \"1 0 R\", \"/QVU\": " + std::to_string(r.pick(50)) + "}}}]}";
+            auto is = std::make_shared<BufferInputSource>("json", js);
+            q.updateFromJSON(is); } break;
+        default: opname = "reopen"; docs[a].reset(); open(a); break;
+        }
+        return opname;
+    }
+};
+
+} // namespace
+
+static Reg r_isofile("isofile", [](std::vector<std::string> const& a) -> std::string {
+    unsigned long long seed = std::stoull(a.at(0));
+    int nsteps = std::stoi(a.at(1));
+    auto files = split(a.at(2), ',');
+    return in_child([=] {
+        FileWorld w;
+        for (auto const& f: files) w.data.push_back(slurp(f));
+        w.fresh_data = w.data.at(0);
+        if (a.size() > 3) w.dump_dir = a[3];
+        w.docs.resize(3);
+        for (size_t i = 0; i < 3; ++i) w.open(i);
+        Rng r{seed};
+        r.next();
+        std::string out = "init|" + w.hashes();
+        for (int k = 0; k < nsteps; ++k) {
+            size_t acting = r.pick(3);
+            std::string opname = "?";
+            std::string res;
+            try { w.step(r, acting, opname); res = opname; }
+            catch (std::logic_error const& e) { res = opname + ":!L"; }
+            catch (std::exception const& e) { res = opname + ":!R"; }
+            out += "#" + res + "|" + std::to_string(acting) + "|" + w.hashes();
+        }
+        return out;
+    });
+});
